@@ -147,6 +147,11 @@ func VerifH03c() {
 		w.step(a, "H03c")
 		w.checkReads("H03c")
 	}
+	// what was committed is durable as committed: a clean restart shows exactly the committed
+	// state (open transactions are gone with the process)
+	concreteCounter = true // same process: the counter's role across processes is C05's subject
+	w.reopen("H03c")
+	w.checkReads("H03c.after-reopen")
 	nd.Reach("H03c.end")
 }
 
